@@ -202,6 +202,8 @@ def sweep(S, want=None):
                     before = snapshot(tmp)
                     if mode == 'inplace':
                         cmd = list(opts) + ['-i'] + sorted(targets)
+                    elif check and opts == OPTS[1]:
+                        cmd = list(opts) + ['-i', 'format-all', '--check', root]        # accepted by clap: the flags stand on different sides of the subcommand
                     else:
                         cmd = flags + ['format-all', root]
                     code, out, _ = run(S, cmd, tmp)
